@@ -265,8 +265,9 @@ class Broker(object):
             elif t == "PUBACK":
                 sess.tx_q1.pop(p["id"], None)
             elif t == "PUBREC":
-                if sess.tx_unrec.pop(p["id"], None) is not None:
-                    sess.tx_recd[p["id"]] = True
+                pub = sess.tx_unrec.pop(p["id"], None)
+                if pub is not None:
+                    sess.tx_recd[p["id"]] = pub
             elif t == "PUBCOMP":
                 if sess.tx_rel.pop(p["id"], None) is not None:
                     sess.tx_done.append(p["id"])
@@ -836,7 +837,10 @@ class World(object):
             mode = st.get("mode", "new")
             if mode == "repeat":
                 # repeat an unreleased QoS2 (or unacked QoS1) PUBLISH, DUP set
-                pool = list(sess.tx_unrec.values()) if st.get("q", 2) == 2 else list(sess.tx_q1.values())
+                # (a PUBLISH whose PUBREC the broker has seen may be repeated as well: to the
+                # client that is indistinguishable from a PUBREC lost on the way)
+                pool = (list(sess.tx_unrec.values()) + [v for v in sess.tx_recd.values() if isinstance(v, dict)]) \
+                    if st.get("q", 2) == 2 else list(sess.tx_q1.values())
                 if not pool:
                     raise StepSkipped("nothing to repeat")
                 p = dict(pool[st.get("ref", 0) % len(pool)])
